@@ -234,3 +234,22 @@ Print Assumptions refused_frame_ciba.
 Theorem frame_introspect : forall w now r st, fst (run_seq (introspect w now r) st) = st.
 Proof. exact introspect_frame. Qed.
 Print Assumptions frame_introspect.
+
+(* The frame does NOT extend to the authorization callback under the aliasing (default) storage:
+   a callback refused because the client of the session no longer exists has already let the
+   policy write into the stored session (found by suite c13, replayed on the real provider;
+   known finding D20).  Under the copying interpretation the store is untouched. *)
+Definition orphan_world : world :=
+  mkWorld (mkConfig POpenID [GAuthorizationCode] [] ["code"] [] false 600 300 false false 0 false false "" [] false false 0 false
+             false false false false false 0 false false false false false false false false false
+             false false false false false false false "") [].
+Definition orphan_session : asession :=
+  mkASession 41 7 "" 0 37 0 0 "" 0 0 1000%Z 0 "" (mkParams 0 "https://c.example/cb" "" "code" "openid" "" "" PkEmpty "" 0 "" 0 "").
+Definition orphan_store : store := mkStore [] [orphan_session] [].
+Theorem refused_frame_callback_alias_refuted :
+  let r := mkCbReq 37 (PolSuccess "user" "openid") in
+  snd (run_alias (continue_auth orphan_world 3 0%Z r) orphan_store) = OErr EInvalidRequest /\
+  fst (run_alias (continue_auth orphan_world 3 0%Z r) orphan_store) <> orphan_store /\
+  fst (run_seq (continue_auth orphan_world 3 0%Z r) orphan_store) = orphan_store.
+Proof. vm_compute. repeat split; congruence. Qed.
+Print Assumptions refused_frame_callback_alias_refuted.
